@@ -176,5 +176,16 @@ Record def_info := {
   d_content_obb : bool;     (* maskContentUnits = objectBoundingBox (masks only) *)
   d_cacheable : bool;       (* is_cacheable(node) *)
   d_geom_ok : bool;         (* mask: the rect is a NonZeroRect; clipPath: the transform is valid *)
+  d_link : option string;   (* `mask` attribute of the mask / `clip-path` attribute of the clipPath: id of the linked element *)
   d_content : cache -> cache * bool
 }.
+
+(* ---- second pass: every call site in crates/usvg/src/parser/*.rs of a function that converts an element, with the guard that
+   precedes it (table call_sites of Gen/ConvTables.v: callee, enclosing function, guard) *)
+Inductive site_guard :=
+  | SG_VisibleBefore   (* `if !SUBJECT.is_visible_element(..) { return / continue }` precedes the call in the enclosing function *)
+  | SG_OwnNode         (* the subject is the enclosing function's own `node` parameter (not rebound): vetted by ITS callers *)
+  | SG_SymbolOfUse     (* use_node::convert hands the `symbol` child of a (vetted) `use` to its local convert_children: SVG says
+                          display / conditional attributes do not apply to symbol *)
+  | SG_Internal        (* the callee filters the elements itself (convert_element, convert_children, convert_clip_path_elements) *)
+  | SG_None.           (* nothing of the above: an unguarded route to content conversion *)
